@@ -126,7 +126,10 @@ def run_case(c):
         if (v - 1) in tgt:
             tgt = tgt + [twin]
         state = {"A": enc.ints(new.adjacency), "w": [int(round(x * den)) for x in new.node_weights],
-                 "wexact": int(np.allclose(new.node_weights * den, np.round(new.node_weights * den)))}
+                 "wexact": int(np.allclose(new.node_weights * den, np.round(new.node_weights * den))),
+                 # distance of the reported weights from the exact split, in units of 10^-9 of the weight scale
+                 "werr": int(min(10**9, round(1e9 * float(np.max(np.abs(
+                     np.asarray(new.node_weights, dtype=float) * den - np.round(new.node_weights * den)))))))}
         return new, state, src, tgt
 
     def pos(lst, v):
